@@ -36,6 +36,8 @@ where
     M::State: Hash + Send + 'static,
 {
     pub(crate) fn spawn(options: CheckerBuilder<M>) -> Self {
+        #[cfg(getong_stateright_verif)]
+        use crate::verif::time::SystemTime;
         let model = Arc::new(options.model);
         let symmetry = options.symmetry;
         let target_state_count = options.target_state_count;
@@ -135,6 +137,8 @@ where
                                 &max_depth,
                                 symmetry,
                             );
+                            #[cfg(getong_stateright_verif)]
+                            crate::verif::yield_point("block-end");
                             if finish_when.matches(
                                 &discoveries.iter().map(|r| *r.key()).collect(),
                                 &properties,
@@ -209,6 +213,8 @@ where
                 None => return,
                 Some(pair) => pair,
             };
+            #[cfg(getong_stateright_verif)]
+            crate::verif::yield_point("state");
 
             if max_depth.get() > current_max_depth {
                 let _ = global_max_depth.compare_exchange(
@@ -299,6 +305,8 @@ where
                     continue;
                 }
                 state_count.fetch_add(1, Ordering::Relaxed);
+                #[cfg(getong_stateright_verif)]
+                crate::verif::yield_point("gen");
 
                 // Skip if already generated.
                 //
@@ -349,6 +357,8 @@ where
                     NonZeroUsize::new(max_depth.get() + 1).unwrap(),
                 ));
             }
+            #[cfg(getong_stateright_verif)]
+            crate::verif::yield_point("terminal");
             if is_terminal {
                 for (i, property) in properties.iter().enumerate() {
                     // Once a discovery exists the bits are no longer maintained along the path (see
